@@ -246,12 +246,15 @@ class C09(Prop):
         r = random.Random(seed); g = T(seed, valid=0.9); ops = []
         I = lambda x: ('int', x); B = lambda b: ('bytes', b)
         sig = ('array', [B(b''), ('map', []), B(b'\x05')]); badsig = ('array', [B(b''), ('map', [(I(1), I(8))]), B(b'')])
+        sig2 = ('array', [B(bytes.fromhex('a10126')), ('map', [(I(4), B(b'11'))]), B(b'\xe2\xae')])
         rcp = ('array', [B(b''), ('map', []), ('null',)]); rcp4 = ('array', [B(b''), ('map', []), B(b'c'), ('array', [rcp])])
         badrcp = ('array', [B(b'\xa1'), ('map', []), ('null',)])
         slot = [B(b''), B(bytes.fromhex('a10126')), B(bytes.fromhex('a0')), B(b'\x01'), B(bytes.fromhex('a1012600')), B(bytes.fromhex('a201260126')),
                 ('map', []), ('map', [(I(4), B(b'k'))]), ('map', [(I(1), I(8))]), ('null',), I(0), ('text', b'x'), ('bool', False),
                 ('array', []), ('array', [sig]), ('array', [sig, sig]), ('array', [badsig]), ('array', [sig, I(1)]), ('array', [rcp]), ('array', [rcp4]), ('array', [badrcp]),
-                ('array', [('array', [B(b''), ('map', []), ('null',), ('array', [rcp4])])]), ('array', [('array', [B(b''), ('map', []), ('null',), ('array', [badrcp])])]), ('tag', 18, ('array', []))]
+                ('array', [('array', [B(b''), ('map', []), ('null',), ('array', [rcp4])])]), ('array', [('array', [B(b''), ('map', []), ('null',), ('array', [badrcp])])]), ('tag', 18, ('array', [])),
+                # a bare structure where a list of them belongs (seeded C09-r3), at top level and one level down
+                sig, rcp, rcp4, badsig, sig2, ('array', [('array', [B(b''), ('map', []), ('null',), rcp])]), ('array', [B(b''), ('map', []), ('null',), rcp])]
         good = {3: [B(b''), ('map', []), B(b'x')], 4: [B(b''), ('map', []), B(b'p'), B(b's')], 5: [B(b''), ('map', []), B(b'p'), B(b't'), ('array', [rcp])]}
         for arity in range(0, 8):
             for _ in range(budget(tier, 120, 2500)):
@@ -259,7 +262,8 @@ class C09(Prop):
                 a = []
                 for i in range(arity):
                     a.append(base[i] if (base and r.random() < 0.75) else r.choice(slot))
-                if arity == 4 and r.random() < 0.4: a[3] = r.choice([('array', [sig]), ('array', [rcp]), B(b's'), ('array', []), ('array', [rcp4])])
+                if arity == 4 and r.random() < 0.4: a[3] = r.choice([('array', [sig]), ('array', [rcp]), B(b's'), ('array', []), ('array', [rcp4]), sig, sig2, rcp, rcp4])
+                if arity == 5 and r.random() < 0.3: a[4] = r.choice([rcp, rcp4, sig, ('array', [rcp, rcp4]), ('array', [])])
                 v = ('array', a); b = refcbor.encode(v) if r.random() < 0.6 else g.venc(v)
                 for t in self.STRUCTS:
                     ops.append(mk('dec %s b%s' % (t, b.hex()), k='arity%d' % arity))
